@@ -13,6 +13,9 @@ def run(ck, tier, seed):
     seen = set()
     for p in progs:
         c, a, o = cases[p["id"]], casesA[p["id"]], obs[p["id"]]
+        if o.get("skipped"):
+            ck.cov["not_run_unbounded_growth"] = ck.cov.get("not_run_unbounded_growth", 0) + 1
+            continue
         if "parse" in o:
             continue
         if p.get("funcs"):
